@@ -452,7 +452,7 @@ pub fn run(ctx: &Ctx) -> i32 {
     replay_known(ctx, &stats, &mut report, &replay);
     HUGE_FLOAT_TIME_EXCLUDED.store(ctx.open("data.float_time_out_of_range"), std::sync::atomic::Ordering::Relaxed);
     replay_regressions(ctx, &stats, &mut report, &replay);
-    let cases = ctx.tier.pick(96, 1500);
+    let cases = ctx.tier.pick(240, 1500);
     let tier = ctx.tier;
     if let Some(f) = explore(ctx, "store-validation", || case_strategy(tier, true), Explore { cases, max_shrink_iters: ctx.tier.pick(200, 600), lanes: ctx.lanes }, &stats, run_case) {
         report.violations.push(f);
